@@ -235,6 +235,9 @@ func (r *Reader) Info() (*Info, error) {
 // GetAttachmentReader returns an attachment reader located at the specific offset.
 // The reader must be consumed before the base reader is used again.
 func (r *Reader) GetAttachmentReader(offset uint64) (*AttachmentReader, error) {
+	if r.rs == nil {
+		return nil, fmt.Errorf("cannot get an attachment at an offset from a non-seekable reader")
+	}
 	_, err := r.rs.Seek(int64(offset+9), io.SeekStart)
 	if err != nil {
 		return nil, err
@@ -247,6 +250,9 @@ func (r *Reader) GetAttachmentReader(offset uint64) (*AttachmentReader, error) {
 }
 
 func (r *Reader) GetMetadata(offset uint64) (*Metadata, error) {
+	if r.rs == nil {
+		return nil, fmt.Errorf("cannot get metadata at an offset from a non-seekable reader")
+	}
 	err := r.seekLexer(int64(offset))
 	if err != nil {
 		return nil, err
